@@ -32,7 +32,9 @@ META = {
     "text": "Generated timelines (suspend/resume intervals of up to three concurrent readers, nested and overlapping, "
             "command finishing at a generated instant or never) are run against the real SuspendableClock over the real "
             "SystemClock on synctest fake time and compared with a naive per-tick model of unsuspended time; the suspending "
-            "storage decorators are driven by a rapid state machine with a counting Suspendable. Search, not proof.",
+            "storage decorators are driven by a rapid state machine with a counting Suspendable. A further part runs real goroutines on real time "
+            "(readers hammering Suspend/Resume while run contexts end) and checks, as validity predicates over every schedule, that the outcome of a run "
+            "context is recorded before Done() announces it. Search, not proof.",
     "design_ref": "6/C11",
     "note": "Trusts testing/synctest's fake time, the per-tick reference model, and that real callers use timeoutThreshold > 0. "
             "Same-instant orders between harness events and timer expiries are partly left to the Go scheduler (both accepted).",
